@@ -1232,6 +1232,9 @@ func c19Run(rc *core.RunCtx) {
 	if !rc.Expired() && !rc.Done() {
 		c19Dotted(rc)
 	}
+	if !rc.Expired() && !rc.Done() {
+		c19LatePath(rc)
+	}
 }
 
 func init() {
@@ -1249,7 +1252,8 @@ func init() {
 			"part graphs: ALL import graphs as ordered adjacency lists without repeated edges (self loops, cycles, diamonds, every order of first import) over exactly N modules, one form on every edge (import, import-as, from, from-as, star, star with __all__, mutate), " +
 			"binding block before/after the imports per module: N<=2 with <=3 edges per module, N=3 with <=2 (quick) / <=3 (thorough), N=4 with <=2 edges per module and forms import/from/star-all (thorough only). " +
 			"After main, in the same context: every module is imported again, the missing module is imported, a final statement logs. Compared with the model: the whole log (execution order, probes), per-module execution counts, " +
-			"the exception type ending main, the module store membership and every module's namespace (values; module identities against the store) after main and after the re-imports, the re-import outcomes. Non-trivial: at least one module body executes.",
+			"the exception type ending main, the module store membership and every module's namespace (values; module identities against the store) after main and after the re-imports, the re-import outcomes. Non-trivial: at least one module body executes. " +
+			"part latepath: one context and one module name that two directories provide: every history of <= 4 (thorough 5) steps over {import, from-import (each inside try/except ImportError), sys.path.append(dirA), sys.path[0:0] = [dirB], del sys.path[-1:]} ending in an import, against a model of the search path and the loaded module (a failed import leaves nothing behind; the first directory on the path wins; the body runs once; a loaded module stays loaded).",
 		Run: c19Run,
 		Assumptions: []string{
 			"Python 3.4 semantics as implemented by the model: a module is in the cache before its body runs; a module whose body raised is removed from the cache again (importlib._bootstrap since 3.3), modules it imported stay; `from m import a` of an unbound name raises ImportError; star import binds __all__ or the names not starting with an underscore. The model was cross-checked against CPython 3.11 on > 600000 generated cases (scripts/c19_crosscheck.py) with zero mismatches; the ImportError family (ModuleNotFoundError) counts as ImportError",
